@@ -118,6 +118,9 @@ type Env struct {
 
 	Arch *oracle.Archive
 
+	metaMounted bool
+	metaFull    bool
+
 	nextOut int
 	extraN  int
 	nextID  [3]int64
@@ -181,6 +184,10 @@ func (e *Env) OpenApp() error {
 }
 
 func (e *Env) Close() {
+	if e.metaFull {
+		_ = e.MetaFull(false)
+	}
+	defer e.UnmountMeta()
 	e.CloseApp()
 	if e.LS != nil && e.LS.IsOpen() {
 		ctx, cancel := context.WithTimeout(context.Background(), 20*time.Second)
